@@ -40,6 +40,7 @@ type target struct {
 	opaque []string // callees that stay outside: each becomes a parameter `<name>P` of the translated function that calls it
 	chanLog string  // a (pruned) struct that gets the ghost field `chlog`: the channel operations its methods perform, in order
 	regions []regionSpec // statements of a function translated as definitions of their own
+	fieldFuncs []string  // function-valued struct fields (callbacks of the package's users): each a parameter `<name>P` of the function that reads it (none = nil)
 	dynRW   bool         // an http.ResponseWriter is a GoRT.DynRW here (its identity, the extra methods its dynamic type has, what Unwrap returns): type switches over it
 	callLog string       // a (pruned) struct that gets the ghost field `cblog`: the calls its methods make through callback values (numbers), in order
 }
@@ -90,8 +91,9 @@ var targets = []target{
 	{dir: ".", files: []string{"message.go", "message_fields.go", "session.go"}, funcs: []string{"Upgrade"}, out: "Upgrade", opaque: []string{"getResponseWriter"}},
 	// … and getResponseWriter itself: the loop over Unwrap() with its type switch on what the writer's dynamic type can do
 	{dir: ".", files: []string{"message.go", "message_fields.go", "session.go"}, funcs: []string{"getResponseWriter"}, out: "Writers", dynRW: true},
-	// Server.Publish's topic defaulting
-	{dir: ".", files: []string{"server.go"}, funcs: []string{"getTopics"}, out: "Server"},
+	// Server.Publish's topic defaulting; the subscription a session gets (OnSession, a callback of the caller's, is a parameter)
+	{dir: ".", files: []string{"message.go", "message_fields.go", "session.go", "server.go"}, funcs: []string{"getTopics", "Server.getSubscription"}, out: "Server",
+		prune: []string{"Server"}, fieldFuncs: []string{"OnSession"}},
 	// what a reconnection attempt does to the request: the body re-obtained, the Last-Event-ID header set or removed
 	{dir: ".", files: []string{"client.go", "client_connection.go", "event.go"}, funcs: []string{"resetRequestBody", "Connection.resetRequest",
 		"Connection.addSubscriberToAll", "Connection.addSubscriber", "Connection.dispatch"}, out: "Reset", prune: []string{"Connection"}, callLog: "Connection",
@@ -146,6 +148,8 @@ type tr struct {
 	orderOf        map[*ast.RangeStmt]string  // … one parameter per range over a map (order, order2, …)
 	callLog        string                     // the struct that carries the ghost log of callback calls
 	dynRW          bool                       // http.ResponseWriter is GoRT.DynRW in this target
+	ifaceConv      map[string]string          // … of the current function: struct types stored as a MessageWriter (conversion parameters)
+	fieldFuncs     map[string]bool            // function-valued fields that are parameters of the functions reading them
 	dynIfaces      map[string][]string        // interfaces that are cases of a type switch over such a writer: the methods they ask for
 	callArgTy      string                     // … Lean type of the argument the callbacks take
 	retEnv         []*types.Var               // the current function returns a function literal: the variables it captures (closure conversion)
@@ -447,6 +451,23 @@ func (t *tr) litEnv(lit *ast.FuncLit, recv *types.Var) []*types.Var {
 		out = append(out, fv)
 	}
 	return out
+}
+
+// fieldFunc: x.F where F is a function-valued field that is a parameter here
+func (t *tr) fieldFunc(x ast.Expr) (string, *types.Signature, bool) {
+	sel, ok := x.(*ast.SelectorExpr)
+	if !ok || !t.fieldFuncs[sel.Sel.Name] {
+		return "", nil, false
+	}
+	s, ok := t.info.Selections[sel]
+	if !ok || s.Kind() != types.FieldVal {
+		return "", nil, false
+	}
+	sg, ok := s.Type().Underlying().(*types.Signature)
+	if !ok {
+		return "", nil, false
+	}
+	return sel.Sel.Name, sg, true
 }
 
 // isMutex: sync.Mutex / sync.RWMutex
@@ -885,6 +906,12 @@ func (t *tr) expr(e *em, x ast.Expr) string {
 			return n
 		}
 		if id, ok := v.Y.(*ast.Ident); ok && id.Name == "nil" && (v.Op == token.EQL || v.Op == token.NEQ) {
+			if fname, _, ok := t.fieldFunc(v.X); ok {
+				if v.Op == token.NEQ {
+					return "(" + fname + "P).isSome"
+				}
+				return "(" + fname + "P).isNone"
+			}
 			if xi, ok := v.X.(*ast.Ident); ok {
 				if o, ok := t.info.Uses[xi].(*types.Var); ok && t.nilable[o] && t.isResW(o.Type()) {
 					if v.Op == token.NEQ {
@@ -1076,6 +1103,21 @@ func (t *tr) expr(e *em, x ast.Expr) string {
 					continue
 				}
 			}
+			if fnm, ok := f.Type().(*types.Named); ok && fnm.Obj().Pkg() == t.pkg && fnm.Obj().Name() == "MessageWriter" {
+				if vt, ok := t.info.Types[val]; ok {
+					if pt, ok := vt.Type.(*types.Pointer); ok {
+						if sn, ok := pt.Elem().(*types.Named); ok {
+							if _, isSt := sn.Underlying().(*types.Struct); isSt {
+								// a *T stored where a MessageWriter is held: how the T is seen through that interface is a parameter
+								// of the translated function (any function: the methods of T are not consulted here)
+								t.ifaceConv[sn.Obj().Name()] = t.leanType(vt.Type, val)
+								vals[f.Name()] = "(as" + sn.Obj().Name() + "WriterP " + t.expr(e, val) + ")"
+								continue
+							}
+						}
+					}
+				}
+			}
 			vals[f.Name()] = t.optExpr(e, val, ptrField)
 		}
 		return t.structLit(n, st, vals, x)
@@ -1202,6 +1244,18 @@ func (t *tr) call(e *em, v *ast.CallExpr) string {
 		res := t.fresh("gbr")
 		e.line("let %s : BodyV × (Option String) := (%s.1, %s.2.1)", res, r, r)
 		return res
+	}
+	if fname, _, ok := t.fieldFunc(v.Fun); ok {
+		// s.F(args): the callback the field holds (calling a nil one panics)
+		f := t.fresh("fn")
+		e.line("let %s ← derefPtr %sP", f, fname)
+		var args []string
+		for _, a := range v.Args {
+			args = append(args, t.expr(e, a))
+		}
+		r := t.fresh("fr")
+		e.line("let %s := %s %s", r, f, strings.Join(args, " "))
+		return r
 	}
 	if sel, ok := v.Fun.(*ast.SelectorExpr); ok && t.dynRW && sel.Sel.Name == "Unwrap" && len(v.Args) == 0 {
 		if xn, ok := t.info.Types[sel.X].Type.(*types.Named); ok && t.dynIfaces[xn.Obj().Name()] != nil {
@@ -3742,6 +3796,79 @@ func (t *tr) function(out *em, fd *ast.FuncDecl, leanName string) {
 		params = append(params, fmt.Sprintf("(%sP : %s → (Option %s))", id.Name, strings.Join(atys, " → "), t.leanType(osig.Results().At(0).Type(), c)))
 		return true
 	})
+	t.ifaceConv = map[string]string{}
+	ast.Inspect(fd.Body, func(n ast.Node) bool {
+		// a *T given to a MessageWriter field of a struct literal: parameter as<T>WriterP
+		cl, ok := n.(*ast.CompositeLit)
+		if !ok {
+			return true
+		}
+		cn, ok := t.info.Types[cl].Type.(*types.Named)
+		if !ok {
+			return true
+		}
+		cst, ok := cn.Underlying().(*types.Struct)
+		if !ok {
+			return true
+		}
+		for _, el := range cl.Elts {
+			kv, ok := el.(*ast.KeyValueExpr)
+			if !ok {
+				continue
+			}
+			for i := 0; i < cst.NumFields(); i++ {
+				f := cst.Field(i)
+				if f.Name() != kv.Key.(*ast.Ident).Name {
+					continue
+				}
+				fnm, ok := f.Type().(*types.Named)
+				if !ok || fnm.Obj().Pkg() != t.pkg || fnm.Obj().Name() != "MessageWriter" {
+					continue
+				}
+				if pt, ok := t.info.Types[kv.Value].Type.(*types.Pointer); ok {
+					if sn, ok := pt.Elem().(*types.Named); ok {
+						if _, isSt := sn.Underlying().(*types.Struct); isSt {
+							params = append(params, fmt.Sprintf("(as%sWriterP : %s → %s)", sn.Obj().Name(), t.leanType(pt, kv.Value), t.leanType(fnm, kv.Value)))
+						}
+					}
+				}
+			}
+		}
+		return true
+	})
+	seenFF := map[string]bool{}
+	ast.Inspect(fd.Body, func(n ast.Node) bool {
+		c, ok := n.(*ast.CallExpr)
+		if !ok {
+			return true
+		}
+		x := c.Fun
+		fname, sg, ok := t.fieldFunc(x)
+		if !ok || seenFF[fname] {
+			return true
+		}
+		seenFF[fname] = true
+		// the parameter's argument types are those of what this call hands over (an interface-typed parameter takes the
+		// translated type of the value it is given)
+		var atys []string
+		for _, a := range c.Args {
+			ty := t.leanType(t.info.Types[a].Type, a)
+			if t.isOptPtr(a) {
+				ty = "(Option " + ty + ")"
+			}
+			atys = append(atys, ty)
+		}
+		var rtys []string
+		for i := 0; i < sg.Results().Len(); i++ {
+			rtys = append(rtys, t.leanType(sg.Results().At(i).Type(), x))
+		}
+		res := "Unit"
+		if len(rtys) > 0 {
+			res = "(" + strings.Join(rtys, " × ") + ")"
+		}
+		params = append(params, fmt.Sprintf("(%sP : Option (%s → %s))", fname, strings.Join(atys, " → "), res))
+		return true
+	})
 	for _, p := range params {
 		if strings.Contains(p, "σ") && !strings.Contains(tps, "{σ : Type}") {
 			tps += "{σ : Type} "
@@ -4096,6 +4223,10 @@ func main() {
 		t.chanLog = tg.chanLog
 		t.callLog = tg.callLog
 		t.dynRW = tg.dynRW
+		t.fieldFuncs = map[string]bool{}
+		for _, fn := range tg.fieldFuncs {
+			t.fieldFuncs[fn] = true
+		}
 		t.dynIfaces = map[string][]string{}
 		t.opaque = map[string]bool{}
 		for _, on := range tg.opaque {
@@ -4117,7 +4248,7 @@ func main() {
 								if p, ok := rt.(*types.Pointer); ok {
 									rt = p.Elem()
 								}
-								if nn, ok := rt.(*types.Named); ok && nn.Obj().Name() == pn {
+								if nn, ok := rt.(*types.Named); ok && nn.Obj().Name() == pn && !t.fieldFuncs[se.Sel.Name] {
 									acc[se.Sel.Name] = true
 								}
 							}
